@@ -132,6 +132,54 @@ def r_restore(ctx):
                                               "%s %s returns Ok but %s: generic arguments of a speculative descent leak into siblings" % (which, fn, "; ".join(what)))
 
 
+def r_groupref(ctx, rid="C08.groupref"):
+    ctx.rule(rid, "seq_match_group_ref (JSON and CBOR) on a group name inside an array: (a) a reference to a group that is being expanded at an "
+                  "*earlier* cursor is followed — elements were consumed in between, so `g = (int, ? g)` recurses through the array; (b) the "
+                  "same name at the *same* cursor is refused without descending (zero progress); (c) when the base definition does not match "
+                  "and two `//=` alternatives both do, the first one in document order decides the result and the later one is not tried "
+                  "(abstract evaluation with the sub-matcher scripted)", floor=6)
+    f = ctx.facts
+    for which in ("json", "cbor"):
+        file, ty = vt.VIS[which]
+        fn = "seq_match_group_ref"
+        for label, active0, results, want, want_calls in (
+                ("progress", [("g", 3)], [8], ("Some", 8), 1),
+                ("zero-progress", [("g", 7)], [8], ("None",), 0),
+                ("alternates-in-order", [], [None, 8, 9], ("Some", 8), 2)):
+            key = "%s|%s" % (which, label)
+            state = ("enum", "ValidationState", {"generic_rules": MutList(), "eval_generic_rule": ("None",), "cddl": OPAQUE, "ctrl": ("None",)})
+            selfo = ("enum", "Self", {"state": state, "errors": MutList()})
+            active = MutList([("tuple", [("str", "zzz"), 0])] + [("tuple", [("str", n), c]) for n, c in active0])
+            ctxo = ("enum", "ArraySeqCtx", {"active_group_refs": active})
+            name = ("enum", "Identifier", {"ident": ("str", "g"), "socket": ("None",)})
+            calls = {"n": 0}
+
+            def sub(run, it, node, recv, results=results, calls=calls):
+                i = calls["n"]
+                calls["n"] += 1
+                r = results[i] if i < len(results) else None
+                return ("Ok", ("Some", r)) if r is not None else ("Ok", ("None",))
+            scripts = {"seq_match_entry": sub, "seq_match_group": sub,
+                       "generic_params_from_rule": lambda r, it, node, a: ("None",)}
+            run = vt.ObjRun(f, file, ty, scripts=scripts)
+            ge = ("enum", "TypeGroupnameEntry", {"name": name, "generic_args": ("None",), "occur": ("None",)})
+            grule = ("Some", ("enum", "GroupRule", {"entry": OPAQUE}))
+            alts = MutList([("alt", 1), ("alt", 2)])
+            try:
+                v = run.call(fn, selfo, {"ge": ge, "grule": grule, "alternates": alts, "elems": OPAQUE, "cursor": 7, "ctx": ctxo})
+            except Unknown as e:
+                ctx.incomplete_msg(rid, "%s: %s" % (key, e))
+                continue
+            fi = run.fn(fn)
+            if not (isinstance(v, tuple) and v[0] == "Ok") or absint.has_opaque(v):
+                ctx.incomplete_msg(rid, "%s: result %r" % (key, v))
+                continue
+            ctx.site(rid, key, file, fi.line, {"result": repr(v[1]), "sub_matches_tried": calls["n"]})
+            if v[1] != want or calls["n"] != want_calls:
+                ctx.violation(rid, key, file, fi.line, "%s seq_match_group_ref, scenario %s (group `g` open at %s, cursor 7, sub-matcher results %r): returns %r after "
+                              "%d sub-match(es); expected %r after %d" % (which, label, active0 or "no cursor", results, v[1], calls["n"], want, want_calls))
+
+
 def r_order(ctx):
     rid = "C08.order"
     ctx.rule(rid, "type_choice_types_from_ident, type_choice_alternates_from_ident and group_choice_alternates_from_ident iterate `cddl.rules` "
@@ -229,6 +277,7 @@ def run(ctx):
     ctx.guarded("C08.groupincr", lambda c: c14.r_groupchoice(c, "C08.groupincr"))
     ctx.guarded("C08.ctrlrestore.json", lambda c: cv.ctrlrestore_rule(c, "C08j", "json"))
     ctx.guarded("C08.ctrlrestore.cbor", lambda c: cv.ctrlrestore_rule(c, "C08c", "cbor"))
+    ctx.guarded("C08.groupref", r_groupref)
     ctx.guarded("C08.argctx.json", lambda c: cv.argctx_rule(c, "C08j", "json"))
     ctx.guarded("C08.argctx.cbor", lambda c: cv.argctx_rule(c, "C08c", "cbor"))
     ctx.guarded("C08.instguard.json", lambda c: cv.instguard_rule(c, "C08j", "json"))
